@@ -11,7 +11,7 @@ exit 2 = harness fault (never a pass, never a violation)
 import os
 import sys
 
-if os.environ.get('PYTHONHASHSEED') != '0':
+if os.environ.get('PYTHONHASHSEED') != '0' and not os.environ.get('DSIM_KEEP_HASHSEED'):
     os.environ['PYTHONHASHSEED'] = '0'
     os.execv(sys.executable, [sys.executable] + sys.argv)
 
